@@ -80,7 +80,8 @@ def consistent_rows(cols, vals):
         r = dict(zip(keys, combo))
         for c in cols:
             if not c.is_key:
-                r[c] = 10 + sum(r[k] for k in keys)
+                # a function of the FIRST key column only, so that operands with different key sets still agree on it
+                r[c] = 10 + (r[keys[0]] if keys else 0)
         out.append(r)
     return out
 
